@@ -54,6 +54,10 @@ func vpC09Signed(target string, good bool) []byte {
 	}
 	doc, err := SignJSON("id.example", "ed25519:0", ed25519.PrivateKey(priv), vpJObj("mxid", target, "token", "tok"))
 	vpAssume(err == nil)
+	// identity servers may sign with further algorithms: a second key ID of another algorithm sits next to the
+	// ed25519 one (the order in which the two are visited is up to the map)
+	doc, err = SignJSON("id.example", "rsa:1", ed25519.PrivateKey(priv), doc)
+	vpAssume(err == nil)
 	return doc
 }
 
@@ -130,8 +134,8 @@ func vp_C09_reuse() {
 	vpReach("both-reject", !reused && !fresh)
 }
 
-// vp:check C09 quick configs=version:1|10|12;kind:join|join-via|leave|knock|message|join-tpi|invite-tpi K=12 timeout=900
-// vp:check C09 thorough configs=version:ALLVERSIONS;kind:join|join-via|leave|knock|message|join-tpi|invite-tpi K=12 timeout=1800
+// vp:check C09 quick configs=version:1|10|12;kind:join|join-via|leave|knock|message|join-tpi|invite-tpi K=12 timeout=900 maporder=(*github.com/matrix-org/gomatrixserverlib.membershipAllower).membershipAllowedFromThirdPartyInvite
+// vp:check C09 thorough configs=version:ALLVERSIONS;kind:join|join-via|leave|knock|message|join-tpi|invite-tpi K=12 timeout=1800 maporder=(*github.com/matrix-org/gomatrixserverlib.membershipAllower).membershipAllowedFromThirdPartyInvite
 // vp_C09_frame: the verdict does not depend on the order in which auth events were added to the provider, nor on
 // state whose (type, state_key) StateNeededForAuth does not name for the event, and repeated evaluation agrees.
 func vp_C09_frame() {
@@ -165,6 +169,7 @@ func vp_C09_frame() {
 		}
 	}
 	v1 := Allowed(e, p1, vpUserIDForSender) == nil
+	vpMapOrderReset()
 	v1b := Allowed(e, p1, vpUserIDForSender) == nil
 	v2 := Allowed(e, p2, vpUserIDForSender) == nil
 	v3 := Allowed(e, p3, vpUserIDForSender) == nil
